@@ -284,6 +284,7 @@ func init() {
 			{Name: "histories", QShards: 2, TShards: 6, Run: codecHistories(c06Formats...)},
 			{Name: "deepstops", QShards: 2, TShards: 6, Run: c18DeepStops},
 			{Name: "bigfiles", QShards: 4, TShards: 6, StallSec: 90, Run: c18BigFiles},
+			{Name: "manyalive", TShards: 2, StallSec: 90, Run: c18ManyAlive},
 		},
 	})
 	register(&Property{
@@ -1474,5 +1475,91 @@ func c19Wide(c *Ctx) {
 				k.Nontrivial([]byte(fmt.Sprint("wide", fan, variant)))
 			})
 		}
+	}
+}
+
+// c18ManyAlive: HUNDREDS of iterations alive at the same moment — a k-way merge
+// over a few hundred sorted files keeps one pulled iterator (iter.Pull) per
+// file and advances them in turn. Each iterator is advanced by one item, then
+// by another in the opposite order, then all are stopped. Whatever an iterator
+// holds while it is alive (a file, a pooled buffer, a token of a limiter) is
+// held that many times at once; an iteration that waits for one of the others
+// to finish never returns, which the watchdog reports as a hang (this unit's
+// cases take milliseconds).
+func c18ManyAlive(c *Ctx) {
+	dir, err := os.MkdirTemp("", "c18-alive-")
+	if err != nil {
+		return
+	}
+	defer os.RemoveAll(dir)
+	alive := c.N(300, 2500)
+	for i, it := range c18Streams {
+		c.Case(int64(i), func(k *K) {
+			r := k.Rand()
+			var x []byte
+			for try := 0; try < 50 && len(x) < 40; try++ {
+				x = wellFormed(r, it.format, 3+r.IntN(4))
+			}
+			path := filepath.Join(dir, fmt.Sprintf("in%d.%s", i, it.format))
+			if it.file {
+				if strings.HasSuffix(it.name, "File") && i%4 == 1 {
+					path += ".gz"
+					os.WriteFile(path, gzipBytes(x, 6), 0o644)
+				} else {
+					os.WriteFile(path, x, 0o644)
+				}
+			}
+			k.Input("iterator", it.name)
+			k.Input("alive_at_once", alive)
+			var ref []item
+			it.mk(x, path)(func(v item) bool { ref = append(ref, v); return len(ref) < 1000 })
+			if len(ref) < 2 {
+				return
+			}
+			fds0 := countFDs()
+			type pulled struct {
+				next func() (item, bool)
+				stop func()
+			}
+			ps := make([]pulled, alive)
+			for j := range ps {
+				raw := it.mk(x, path)
+				n, s := iter.Pull(func(yield func(item) bool) { raw(yield) })
+				ps[j] = pulled{n, s}
+			}
+			for round := 0; round < 2; round++ {
+				for jj := range ps {
+					j := jj
+					if round == 1 {
+						j = len(ps) - 1 - jj
+					}
+					v, ok := ps[j].next()
+					if !ok || v != ref[round] {
+						k.Failf("many-alive", "%s: with %d iterations alive at once, item %d of iteration %d is %s (ok=%v), want %s", it.name, alive, round, j, v.String(), ok, ref[round].String())
+						for _, p := range ps {
+							p.stop()
+						}
+						return
+					}
+				}
+			}
+			for _, p := range ps {
+				p.stop()
+			}
+			var again []item
+			it.mk(x, path)(func(v item) bool { again = append(again, v); return len(again) < 1000 })
+			if !sameTrace(again, ref) {
+				k.Failf("many-alive", "%s: a complete run after %d stopped iterations differs from the first one", it.name, alive)
+				return
+			}
+			if fds := countFDs(); it.file && fds0 >= 0 && fds > fds0 {
+				k.Failf("fd-leak", "%s: %d more file descriptors open after %d stopped iterations than before", it.name, fds-fds0, alive)
+				return
+			}
+			k.Count("iterations_alive_at_once", int64(alive))
+			k.Count("stop_positions", int64(alive))
+			k.Evals(int64(alive))
+			k.Nontrivial([]byte("manyalive"), []byte(it.name))
+		})
 	}
 }
